@@ -207,3 +207,8 @@ package binary
 //@       (forall k in 0..imin(len(lhs), len(rhs)) :: lhs[k].T == rhs[k].T && lhs[k].T >= 0)
 //@   loop 0 invariant left-ids: forall k in 0..len(lhs) :: len(lhs[k].SampleIDs) == len(lhs[k].Samples) && (forall j in 0..len(lhs[k].SampleIDs) :: lhs[k].SampleIDs[j] < o.lhs.nSeries)
 //@   loop 0 invariant right-ids: forall k in 0..len(rhs) :: len(rhs[k].SampleIDs) == len(rhs[k].Samples) && (forall j in 0..len(rhs[k].SampleIDs) :: rhs[k].SampleIDs[j] < o.rhs.nSeries)
+
+// The loader goroutine of the join asks the left-hand side for its series. Series of every operator ends
+// in the series loaders of coalesce operators, which contain the panics of storage callbacks.
+//@ func (*vectorOperator).initOutputs$1
+//@   trusted assumed not to let a panic escape: it calls Series of the left operand only; storage callbacks of that call run on the recovering loaders of a coalesce operator
